@@ -55,6 +55,168 @@ def gen_problem(rng, t):
     return p
 
 
+def harmonic_variant(rng, p):
+    """the same drawing with the material / boundary features of time-harmonic problems that the SI oracle of stage P does not
+    cover: hysteresis lag, laminations with skin effect, stranded-wire regions (proximity-effect permeability), small-skin-depth
+    and complex mixed boundaries, complex point properties.  Only the ASSEMBLY of Harmonic2D is compared on these."""
+    q = copy.deepcopy(p)
+    in_circuit = set(lab["block"] for lab in q.labels if lab["circ"] >= 0)
+    for im, m in enumerate(q.blockprops):
+        r = rng.random()
+        m.pop("H_c", None)
+        if im in in_circuit and 0.25 <= r < 0.5:
+            r = 0.1          # a laminated block carries no bulk current: keep circuit regions solid or stranded
+        if r < 0.25:
+            m["Phi_hx"] = rng.choice([0.0, 5.0, 20.0]); m["Phi_hy"] = rng.choice([0.0, 5.0, 20.0])
+        elif r < 0.5:
+            m["LamType"] = 0; m["d_lam"] = rng.choice([0.35, 0.5, 0.635]); m["LamFill"] = rng.choice([0.9, 0.98, 1.0])
+            m["Sigma"] = rng.choice([0.0, 2.0, 10.0]); m["Phi_hx"] = rng.choice([0.0, 10.0]); m["Phi_hy"] = m["Phi_hx"]
+            m["Mu_x"] = rng.choice([1.0, 500.0, 2500.0]); m["Mu_y"] = rng.choice([m["Mu_x"], 1000.0])
+        elif r < 0.75:
+            m["LamType"] = rng.choice([3, 4, 5, 6, 7, 8]); m["WireD"] = rng.choice([0.2, 0.5, 1.0]); m["NStrands"] = rng.choice([1, 7, 19])
+            m["Sigma"] = rng.choice([58.0, 35.0, 0.0]); m["Mu_x"] = 1.0; m["Mu_y"] = 1.0
+        if rng.random() < 0.3:
+            m["J_im"] = rng.choice([0.5, -1.0])
+    for b in q.bdryprops:
+        if b["type"] == 2:
+            if rng.random() < 0.4:
+                b["type"] = 1; b["Mu_ssd"] = rng.choice([1.0, 100.0, 1000.0]); b["Sigma_ssd"] = rng.choice([1.0, 5.0, 58.0])
+            else:
+                b["c0i"] = rng.choice([0.0, 0.5, -2.0]); b["c1i"] = rng.choice([0.0, 0.25])
+    for pp in q.pointprops:
+        pp["A_im"] = rng.choice([0.0, 1e-4]); pp["I_im"] = rng.choice([0.0, 0.0, 0.25])
+    for c in q.circprops:
+        c["I_im"] = rng.choice([0.0, 0.5, -2.0])
+    for lab in q.labels:
+        if lab["circ"] >= 0 and q.circprops[lab["circ"]]["type"] == 1:
+            lab["turns"] = rng.choice([1, 10, -25])
+    q.freq = rng.choice([50.0, 400.0, 2000.0, 1e5])
+    return q
+
+
+def parse_csys(lines):
+    E, B, hdr = {}, {}, None
+    for l in lines:
+        t = l.split()
+        if not t:
+            continue
+        if t[0] == "SYS":
+            if hdr is not None:
+                break
+            hdr = l.strip()
+        elif t[0] == "E":
+            E[(int(t[1]), int(t[2]))] = (t[3], t[4])
+        elif t[0] == "B":
+            B[int(t[1])] = (t[2], t[3])
+    return hdr, E, B
+
+
+def compare_csystems(dump_lines, model_lines, ulps=4):
+    h1, E1, B1 = parse_csys(dump_lines)
+    h2, E2, B2 = parse_csys(model_lines)
+    if h1 is None or h2 is None:
+        return dict(what="no system", impl=h1, model=h2)
+    if h1 != h2:
+        return dict(what="size / bandwidth differ", impl=h1, model=h2)
+    if set(E1) != set(E2):
+        return dict(what="stored entries differ", positions=sorted(set(E1) ^ set(E2))[:5])
+    for (X1, X2, what) in ((E1, E2, "matrix entry differs"), (B1, B2, "right-hand side differs")):
+        fin = [abs(tok2d(v)) for pair in X1.values() for v in pair]
+        scale = max([v for v in fin if v == v and v != float("inf")] + [1e-300])
+        for k in sorted(X1):
+            for c in (0, 1):
+                a, b = tok2d(X1[k][c]), tok2d(X2.get(k, ("x7FF8000000000000",) * 2)[c])
+                if a != a and b != b:
+                    continue
+                if vlib.ulp_diff(a, b) > ulps and abs(a - b) > 1e-13 * scale:
+                    return dict(what=what, position=k, part="re" if c == 0 else "im", impl=a, model=b)
+    return None
+
+
+def harmonic_tie(ck, stats, mhx, mx, run, fast, tag):
+    """stage B: the whole system of the first pass of Harmonic2D vs Model/MHarmonic.lean"""
+    dump = os.path.join(run.dir, "sys_harness_h.txt")
+    if os.path.exists(dump):
+        os.remove(dump)
+    try:
+        r = subprocess.run([mhx, run.base] + (["fast"] if fast else []), stdout=subprocess.PIPE, stderr=subprocess.PIPE, text=True, timeout=600,
+                           env=dict(os.environ, XFEMM_VERIF_DUMPSYS=dump))
+    except subprocess.TimeoutExpired:
+        ck.violation("assembly-timeout:harmonic", "the real FSolver::Harmonic2D (in-process) did not finish within 600 s", dict(files=run.files()))
+        return
+    proto = [l for l in r.stdout.splitlines() if l.split() and l.split()[0] in APROTO]
+    if "unsupported" in r.stdout:
+        stats["assembly_unsupported"] = stats.get("assembly_unsupported", 0) + 1
+    elif r.returncode != 0 or not os.path.exists(dump) or not proto:
+        ck.violation("assembly-crash:harmonic", "the real FSolver::Harmonic2D (in-process, assembly harness) failed (rc=%d): %s"
+                     % (r.returncode, (r.stdout[-200:] + r.stderr[-300:])), dict(files=run.files()))
+    else:
+        # which branches of the assembly this problem reaches (from the state the real solver printed)
+        toks = [l.split() for l in proto]
+        bps = [t_ for t_ in toks if t_[0] == "bp"]
+        lps = [t_ for t_ in toks if t_[0] == "lp"]
+        els = [t_ for t_ in toks if t_[0] == "e"]
+        used_blk = set(int(t_[5]) for t_ in els)
+        used_lp = set(int(x_) for t_ in els for x_ in t_[6:9] if int(x_) >= 0)
+        feat = stats.setdefault("harmonic_features", dict(lamination_skin_effect=0, lamination_no_conductivity=0, hysteresis_lag=0, stranded_proximity=0,
+                                                          small_skin_depth_bc=0, complex_mixed_bc=0, prescribed_phase=0, circuit_rows=0, periodic=0))
+        for i_, b_ in enumerate(bps):
+            if i_ not in used_blk:
+                continue
+            lt, ld, cd = int(b_[3]), tok2d(b_[5]), tok2d(b_[10])
+            feat["lamination_skin_effect"] += int(lt == 0 and ld != 0 and cd != 0)
+            feat["lamination_no_conductivity"] += int(lt == 0 and ld != 0 and cd == 0)
+            feat["hysteresis_lag"] += int(tok2d(b_[6]) != 0 or tok2d(b_[7]) != 0)
+        feat["stranded_proximity"] += sum(1 for t_ in toks if t_[0] == "lab" and (tok2d(t_[3]) != 1.0 or tok2d(t_[4]) != 0.0))
+        for i_, l_ in enumerate(lps):
+            if i_ in used_lp:
+                feat["small_skin_depth_bc"] += int(l_[1] == "1")
+                feat["complex_mixed_bc"] += int(l_[1] == "2" and (tok2d(l_[9]) != 0 or tok2d(l_[11]) != 0))
+                feat["prescribed_phase"] += int(l_[1] == "0" and tok2d(l_[5]) != 0)
+        feat["periodic"] += sum(1 for t_ in toks if t_[0] == "pbc")
+        m = subprocess.run([mx, "assemble-mh"], input="\n".join(proto) + "\n", stdout=subprocess.PIPE, text=True, timeout=600)
+        nn_ = sum(1 for t_ in toks if t_[0] == "n")
+        feat["circuit_rows"] += sum(1 for l in m.stdout.splitlines() if l.startswith("E ") and int(l.split()[1]) < nn_ <= int(l.split()[2]))
+        d = compare_csystems(open(dump).read().splitlines(), m.stdout.splitlines())
+        stats["systems_compared"] = stats.get("systems_compared", 0) + 1
+        stats["systems_compared_harmonic" + tag] = stats.get("systems_compared_harmonic" + tag, 0) + 1
+        stats["entries_compared"] = stats.get("entries_compared", 0) + sum(1 for l in m.stdout.splitlines() if l.startswith("E "))
+        if d:
+            ck.obligation_broken("correspondence assemble-mh: FSolver::Harmonic2D (first pass) vs Model/MHarmonic.lean (%s)" % d["what"],
+                                 dict(first_difference=d, files=run.files()))
+
+
+
+def check_harmonic_solution(ck, stats, p, run, tag=""):
+    """stage P on a time-harmonic problem: solve with the real fsolver, hook residual, independent SI assembly at the written potentials"""
+    slog = os.path.join(run.dir, "solve.log")
+    rc = run.solve(env=dict(os.environ, XFEMM_VERIF_SOLVELOG=slog))
+    if rc != 0 or not os.path.exists(run.solution_path()):
+        ck.violation("solver-failed" + tag, "fsolver failed (rc=%s) on a well-formed generated problem: %s" % (rc, run.solve_out[-300:]), dict(files=run.files()))
+        return
+    if os.path.exists(slog):
+        for l in open(slog):
+            mres = [x for x in l.split() if x.startswith("relres=")]
+            if mres:
+                v = float(mres[0].split("=")[1])
+                stats["worst_hook_residual"] = max(stats["worst_hook_residual"], v)
+                if not (v <= 1e-5):
+                    ck.violation("true-residual" + tag, "the linear solver returned with true relative residual %.3g" % v, dict(files=run.files(), log=l))
+    sol = femmio.read_solution(run.solution_path(), "m")
+    mesh = fem_oracle.Mesh(p, sol)
+    rest = [l.split() for l in sol["rest"] if l.strip()]
+    nl = int(rest[0][0])
+    A = np.array([complex(v[0], v[1]) for v in mesh.vals])
+    rec = [(int(r[0]), complex(float(r[1]), float(r[2]))) for r in rest[1:1 + nl]]
+    K, f, fixed = fem_oracle.harmonic_system(mesh, rec)
+    findings, res = fem_oracle.check_solution(K, f, A, fixed, {}, [], None, tol=1e-6)
+    stats["worst_oracle_residual"] = max(stats["worst_oracle_residual"], res["global_residual"])
+    stats["variant_solutions_checked"] = stats.get("variant_solutions_checked", 0) + 1
+    for (key, what, data) in findings[:2]:
+        ck.violation("oracle:" + key + tag, "fsolver's solution violates the independently assembled equations: " + what,
+                     dict(files=run.files(), detail=data, units=p.units, frequency=p.freq))
+
+
 def main(argv):
     ck = vlib.Check("C05", "proof", argv)
     ck.cov["rule"] = ("generated planar magnetics problems with linear materials (mu_x != mu_y, lamination types 0-2 with fill, "
@@ -70,10 +232,12 @@ def main(argv):
     try:
         hx = vlib.compile_harness("mag_harness", build, ("fsolver", "femm", "luacomplex"))
         ax = vlib.compile_harness("assemble_m_harness", build, ("fsolver", "femm", "luacomplex"))
+        mhx = vlib.compile_harness("assemble_mh_harness", build, ("fsolver", "femm", "luacomplex"))
     except vlib.BuildError as e:
         ck.obligation_broken("correspondence mag_harness<->FSolver: " + str(e)[:300])
         hx = None
         ax = None
+        mhx = None
     work = vlib.workdir("C05")
     nprob = 21 if ck.tier == "quick" else 180
     rng = ck.rng
@@ -172,6 +336,19 @@ def main(argv):
                                                      dict(first_difference=d, files=runa.files()))
                     except subprocess.TimeoutExpired:
                         ck.violation("assembly-timeout:axi", "the real FSolver (in-process) did not finish within 600 s", dict(files=runa.files()))
+            # ---- stage B, time-harmonic: the whole system of the first pass of Harmonic2D vs Model/MHarmonic.lean, and the same for a
+            # variant with lag angles, laminations, stranded regions, small-skin-depth / complex mixed boundaries
+            if mhx and p.harmonic:
+                harmonic_tie(ck, stats, mhx, mx, run, False, "")
+                run.restore_mesh()
+                pv = harmonic_variant(rng, p)
+                runv = Run(build, work, "p%d_var" % t, pv)
+                if runv.mesh() == 0:
+                    harmonic_tie(ck, stats, mhx, mx, runv, True, "_variant")
+                    runv.restore_mesh()
+                    # the proximity-effect permeability of stranded regions is a curve fit the oracle does not re-derive
+                    if not any(m.get("LamType", 0) > 2 and m.get("Sigma", 0.0) != 0 for m in pv.blockprops):
+                        check_harmonic_solution(ck, stats, pv, runv, ":variant")
             slog = os.path.join(run.dir, "solve.log")
             rc = run.solve(env=dict(os.environ, XFEMM_VERIF_SOLVELOG=slog))
             if rc != 0 or not os.path.exists(run.solution_path()):
